@@ -43,11 +43,11 @@ def _pick_spec(table, o, node):
     only for a loop it recognises, and -- registered under a STRING key instead of an ordinal -- for whichever loop of the function it
     recognises (a loop inserted in front of it shifts the ordinals, not the contract)."""
     spec = table.get(o)
-    if spec is not None and spec.get("applies") is not None and not spec["applies"](node):
-        spec = None
+    if isinstance(spec, dict) and spec.get("applies") is not None and not spec["applies"](node):
+        spec = None  # (a callable loop contract - computed at the loop head - has no `applies` key)
     if spec is None:
         for k, sp in table.items():
-            if isinstance(k, str) and sp.get("applies") is not None and sp["applies"](node):
+            if isinstance(k, str) and isinstance(sp, dict) and sp.get("applies") is not None and sp["applies"](node):
                 return sp
     return spec
 
